@@ -43,6 +43,7 @@ def overrides : Ty → Option Overrides
   | .array _ _ | .garray _ _ | .seq _ _ _ | .bitseq _ _ => some ⟨true, false, false⟩
   | .str | .bytes => some ⟨true, false, false⟩   -- forwarded to `[u8]`, which overrides `encode_to`
   | .box _ _ => none
+  | .wrap _ => none
   | .duration | .range _ => some ⟨false, true, false⟩   -- only `encode` (and `size_hint`)
   | .enum _ _ => some ⟨true, false, false⟩       -- also when no variant is encodable (after the fix)
 
@@ -51,6 +52,7 @@ def entryTerminates : Ty → Bool
   | .nonZero _ => true                           -- forwards to the primitive, which overrides `using_encoded`
   | .tuple [t] => entryTerminates t
   | .box _ t => entryTerminates t
+  | .wrap t => entryTerminates t
   | ty =>
     match overrides ty with
     | some o => resolves o 4 .encodeTo && resolves o 4 .encode && resolves o 4 .usingEncoded &&
@@ -66,6 +68,7 @@ def usingEncoded : Ty → Val → Res Bytes
   | .compact w, .nat n => compactUsingEncoded w n
   | .tuple [t], .seq [v] => usingEncoded t v
   | .box _ t, v => usingEncoded t v
+  | .wrap t, v => usingEncoded t v
   | ty, v => encode ty v
 
 /-- `Encode::encoded_size`: `encode_to` into a sink that only counts. -/
